@@ -178,10 +178,10 @@ func c16Sender(c *core.Ctx, sender *ssa.Function, doneCh ssa.Value) {
 				continue
 			}
 			cc := ci.Common()
-			if cc.IsInvoke() && cc.Method.Name() == "close" {
+			if cc.IsInvoke() && methName(cc.Method.Name()) == "close" {
 				closed = true
 			}
-			if sc := cc.StaticCallee(); sc != nil && sc.Name() == "close" {
+			if sc := cc.StaticCallee(); sc != nil && methName(sc.Name()) == "close" {
 				closed = true
 			}
 			if cancelV != nil && facts.Resolve(cc.Value) == cancelV {
@@ -209,7 +209,7 @@ func c16Sender(c *core.Ctx, sender *ssa.Function, doneCh ssa.Value) {
 	// result.close implementations really close
 	seenClose := map[string]bool{}
 	for _, fn := range c.P.ModuleFunctions("ociunify") {
-		if fn.Name() != "close" || fn.Signature.Recv() == nil {
+		if methName(fn.Name()) != "close" || fn.Signature.Recv() == nil {
 			continue
 		}
 		if seenClose[c.P.Pos(fn.Pos())] {
@@ -339,7 +339,7 @@ func c16Receiver(c *core.Ctx, rrc *ssa.Function) {
 		if len(r.Results) == 2 && fieldOfCell(facts.RetVal(r, 0), first.cell, "r") {
 			for _, cd := range facts.CondsAt(r.Block()) {
 				if x, isNil, ok := facts.NilCheck(cd); ok && isNil {
-					if call, isCall := facts.Resolve(x).(*ssa.Call); isCall && call.Call.IsInvoke() && call.Call.Method.Name() == "error" {
+					if call, isCall := facts.Resolve(x).(*ssa.Call); isCall && call.Call.IsInvoke() && methName(call.Call.Method.Name()) == "error" {
 						immediate = true
 					}
 				}
@@ -355,7 +355,7 @@ func c16Receiver(c *core.Ctx, rrc *ssa.Function) {
 		}
 		v := facts.RetVal(r, 0)
 		call, ok := v.(*ssa.Call)
-		if !ok || !call.Call.IsInvoke() || call.Call.Method.Name() != "mkErr" {
+		if !ok || !call.Call.IsInvoke() || methName(call.Call.Method.Name()) != "mkErr" {
 			continue
 		}
 		n++
@@ -484,7 +484,7 @@ func c16CancelOwnership(c *core.Ctx) {
 // c16Both: `both` and PushBlob — every send of a spawned goroutine is matched by an unconditional receive.
 func c16Both(c *core.Ctx) {
 	for _, fn := range c.P.ModuleFunctions("ociunify") {
-		if fn.Parent() != nil || isInstance(fn) || fn.Name() == "runReadConcurrent" {
+		if fn.Parent() != nil || isInstance(fn) || fnName(fn) == "runReadConcurrent" {
 			continue
 		}
 		var gos []*ssa.Go
